@@ -65,6 +65,19 @@ def expected_ansi(nmax):
     return np.concatenate(ns), np.concatenate(ms)
 
 
+def doc_noll(i):
+    """the documented Noll mode of index i >= 1 in closed form, exact integer arithmetic (for indices too large to enumerate)"""
+    n = (math.isqrt(8 * (i - 1) + 1) - 1) // 2          # tri(n) < i <= tri(n+1)
+    j = i - n * (n + 1) // 2 - 1
+    a = 2 * ((j + 1) // 2) if n % 2 == 0 else 2 * (j // 2) + 1
+    return n, (a if i % 2 == 0 else -a)
+
+
+def doc_ansi(i):
+    n = (math.isqrt(8 * i + 1) - 1) // 2
+    return n, 2 * (i - n * (n + 1) // 2) - n
+
+
 def parse_pairs(line):
     if not line.startswith('ok '):
         raise MachineryError('model answered %r to an index-map request' % line[:80])
@@ -128,6 +141,35 @@ def check_index_maps(ctx, hz):
         ctx.violation('noll-injective', 'noll_to_zernike is not injective on 1..%d' % N, {'what': 'noll-injective', 'N': N})
     ctx.case({'index-maps': 'noll 1..%d, ansi 0..%d' % (N, N)}, ('index-forward', N))
     ctx.count('index:noll_to_zernike', N); ctx.count('index:ansi_to_zernike', N + 1); ctx.count('index:zernike_to_ansi', N + 1)
+
+    # ---- far indices, up to the bound of `noll_order_float_safe` / `ansi_order_float_safe` (2i-1 < 2^48): windows around the first
+    # index of a row, where the float square root is closest to the decision threshold, and random indices inside rows
+    far_lines, far_slots = [], []
+    rows_far = [int(x) for x in ctx.rng.integers(1000, 16000000, size=ctx.scale(40, 400))] + [16000000, 11863283, 4194304, 2 ** 23 - 1]
+    for n in rows_far:
+        T = n * (n + 1) // 2
+        for lo, hi, doc, fn, name, key in ((T - 2, T + 5, doc_noll, hz.noll_to_zernike, 'noll', 'noll-order'),
+                                           (T - 3, T + 4, doc_ansi, hz.ansi_to_zernike, 'ansi', 'ansi-order')):
+            starts = [lo] + [int(T + 1 + ctx.rng.integers(0, n)) for _ in range(2)]
+            for st in starts:
+                w = (st, st + (hi - lo if st == lo else 2))
+                got = []
+                for i in range(*w):
+                    g = call_index(fn, i)
+                    got.append(g)
+                    if g != doc(i):
+                        ctx.violation(key, '%s_to_zernike(%d) = %r, the documented ordering gives %r' % (name, i, g, doc(i)), {'what': name, 'i': i})
+                far_slots.append((len(far_lines), name, w[0], got))
+                far_lines.append('C13 %s %d %d' % (name, w[0], w[1]))
+                ctx.count('index:far-%s' % name, w[1] - w[0])
+    out = ctx.model(far_lines)
+    for idx, name, lo, got in far_slots:
+        a, b = parse_pairs(out[idx])
+        for k, g in enumerate(got):
+            ctx.traces_validated += 1
+            if g != (int(a[k]), int(b[k])):
+                ctx.disagree('C13 %s far' % name, {'i': lo + k, 'impl': repr(g), 'model': [int(a[k]), int(b[k])]})
+    ctx.case({'far-index-windows': '%d rows up to n = 1.6e7 (index 1.3e14)' % len(rows_far)}, ('index-far', len(rows_far)))
 
     # ---- zernike_to_noll (brute-force search in the code): all pairs with n <= n_small, random pairs above
     n_small = ctx.scale(100, 300)
@@ -1766,7 +1808,15 @@ def replay(ctx, case):
     hz = sys.modules['hcipy.mode_basis.zernike']
     what = case.get('what')
     ok = True
-    if what == 'noll':
+    if what == 'noll' and case['i'] > 10 ** 7:
+        got = call_index(hz.noll_to_zernike, case['i'])
+        ok = got == doc_noll(case['i'])
+        print('  noll_to_zernike(%d) = %r, documented %r' % (case['i'], got, doc_noll(case['i'])))
+    elif what == 'ansi' and case['i'] > 10 ** 7:
+        got = call_index(hz.ansi_to_zernike, case['i'])
+        ok = got == doc_ansi(case['i'])
+        print('  ansi_to_zernike(%d) = %r, documented %r' % (case['i'], got, doc_ansi(case['i'])))
+    elif what == 'noll':
         en, em = expected_noll(int(math.isqrt(2 * case['i'])) + 2)
         got = call_index(hz.noll_to_zernike, case['i'])
         ok = got == (en[case['i'] - 1], em[case['i'] - 1])
